@@ -1072,7 +1072,12 @@ package plugin
 //@   wait select#1 the quit alternative fires when the stream ends (StartStream defers Close) or the broker is closed
 //@   wait recv#1 signalled_by (*gRPCBrokerServer).StartStream$1: every request taken from s.send is answered on its ch (checked there); a request is only enqueued while the pump can still take it or quit is closed
 //@   requires s.quit != nil && s.send != nil
-//@   modifies heap_fresh
+//@   modifies heap_fresh, se_handed, se_replied
+//@   local se_handed: Bool := false
+//@   local se_replied: Bool := false
+//@   after select#1 set se_handed := index == 1
+//@   after recv#1 set se_replied := true
+//@   ensures se_handed ==> se_replied   [C20.send]
 //@   at select#1 assert sent1 != nil && sent1.i == i && sent1.ch != nil && !closed(sent1.ch) && fresh(sent1.ch)   [C07.pump] [C20.send]
 
 //@ func (*gRPCBrokerServer).Recv
@@ -1131,7 +1136,12 @@ package plugin
 //@   wait select#1 the quit alternative fires when the stream ends (StartStream defers Close) or the broker is closed
 //@   wait recv#1 signalled_by (*gRPCBrokerClientImpl).StartStream$1: every request taken from s.send is answered on its ch (checked there); a request is only enqueued while the pump can still take it or quit is closed
 //@   requires s.quit != nil && s.send != nil
-//@   modifies heap_fresh
+//@   modifies heap_fresh, se_handed, se_replied
+//@   local se_handed: Bool := false
+//@   local se_replied: Bool := false
+//@   after select#1 set se_handed := index == 1
+//@   after recv#1 set se_replied := true
+//@   ensures se_handed ==> se_replied   [C20.send]
 //@   at select#1 assert sent1 != nil && sent1.i == i && sent1.ch != nil && !closed(sent1.ch) && fresh(sent1.ch)   [C07.pump] [C20.send]
 
 //@ func (*gRPCBrokerClientImpl).Recv
@@ -1379,8 +1389,9 @@ package plugin
 //@   nopanic
 //@   requires s.server != nil && !held(s.server.brokerLock)
 //@   modifies heap
-//@   at call (*GRPCServer).Stop#1 assert recv == s.server   [C04.shutdown]
+//@   at call (*GRPCServer).Stop#1 assert recv == s.server   [C04.shutdown] [C18.srv]
 //@   ensures result0 != nil && result1 == nil
+//@   ensures s.server.broker == nil   [C18.srv]
 
 //@ func (*RPCServer).ServeConn
 //@   at call yamux.Server#1 assert arg0 == conn && arg1 == nil   [C03.c]
@@ -1412,9 +1423,15 @@ package plugin
 
 //@ func (*GRPCClient).Close
 //@   nopanic [C03.d] [C04.total]
+//@   modifies heap, gc_broker, gc_conn
 //@   at call (*GRPCBroker).Close#1 assert recv == c.broker   [C04.graceful] [C18.broker]
 //@   at call (plugin.GRPCControllerClient).Shutdown#1 assert recv == c.controller && arg0 == c.doneCtx   [C04.graceful]
 //@   at call (*grpc.ClientConn).Close#1 assert recv == c.Conn   [C04.graceful] [C18.broker]
+//@   local gc_broker: Bool := false
+//@   local gc_conn: Bool := false
+//@   after call (*GRPCBroker).Close#1 set gc_broker := true
+//@   after call (*grpc.ClientConn).Close#1 set gc_conn := true
+//@   ensures gc_broker && gc_conn   [C18.broker]
 //@   requires c.broker != nil && c.controller != nil && c.Conn != nil && c.broker.streamer != nil && c.broker.doneCh != nil
 //@   modifies heap
 
